@@ -11,6 +11,7 @@ use std::panic::catch_unwind;
 pub fn ctok(c: char) -> String {
     match c {
         '\u{e9}' => "@E".into(),
+        '\u{c9}' => "@Z".into(),
         '\u{3042}' => "@T".into(),
         '\u{e01}' => "@K".into(),
         '\u{1F600}' => "@Q".into(),
